@@ -194,11 +194,13 @@ impl DenominationStrategy for CanonicalOneTwoFive {
             if crossing_values.is_empty() {
                 break 0;
             }
+            // The capability's answer is the wallet's to give, so it is not bounded by anything
+            // here: a fee total that does not even fit a `u64` certainly does not fit the balance.
             let fits = prep_tx_count(&typed(&notes)).filter(|&n| {
-                notes
-                    .iter()
-                    .sum::<u64>()
-                    .checked_add(n as u64 * prep_tx_fee_zatoshi)
+                u64::try_from(n)
+                    .ok()
+                    .and_then(|n| n.checked_mul(prep_tx_fee_zatoshi))
+                    .and_then(|fees| notes.iter().sum::<u64>().checked_add(fees))
                     .is_some_and(|c| c <= total_input_zatoshi)
             });
             match fits {
